@@ -730,6 +730,11 @@ func (env *SpecEnv) resolveType(e ast.Expr) types.Type {
 				return types.NewSlice(t)
 			}
 		}
+	case *ast.MapType:
+		k, v := env.resolveType(x.Key), env.resolveType(x.Value)
+		if k != nil && v != nil {
+			return types.NewMap(k, v)
+		}
 	}
 	return nil
 }
@@ -1211,6 +1216,10 @@ func (env *SpecEnv) quantKey(kind string, x *ast.CallExpr) Value {
 		// strings among the key leaves are well-formed strings
 		wf := env.st.wf(kv)
 		b := n.evalBool(x.Args[2])
+		if len(n.skolems) > len(e.skolems) {
+			// constants introduced for nested quantifiers belong to the enclosing formula too
+			e.skolems = append(e.skolems[:len(e.skolems):len(e.skolems)], n.skolems[len(e.skolems):]...)
+		}
 		if isForall {
 			return Implies(wf, b)
 		}
@@ -1235,6 +1244,7 @@ func (env *SpecEnv) quantKey(kind string, x *ast.CallExpr) Value {
 	snap.st = env.st.clone()
 	lf := &LazyForall{Guard: guard, Sort: ks, Desc: exprStr(x), Body: func(k *Term) *Term {
 		e2 := snap
+		e2.st = snap.st.clone() // facts assumed while evaluating one instance must not leak into the guards of later (nested) ones
 		e2.skolems = nil
 		t := bodyAt(&e2, k)
 		if !isForall {
@@ -1275,6 +1285,9 @@ func (env *SpecEnv) quant(kind string, x *ast.CallExpr) Value {
 		n.vars[id.Name] = Sc{k, tInt}
 		rng := And(SLe(lo, k), SLt(k, hi))
 		b := n.evalBool(x.Args[3])
+		if len(n.skolems) > len(e.skolems) {
+			e.skolems = append(e.skolems[:len(e.skolems):len(e.skolems)], n.skolems[len(e.skolems):]...)
+		}
 		if kind == "forall" {
 			return Implies(rng, b)
 		}
@@ -1307,6 +1320,7 @@ func (env *SpecEnv) quant(kind string, x *ast.CallExpr) Value {
 	snap.st = env.st.clone()
 	lf := &LazyForall{Guard: guard, Sort: IntSort, Desc: exprStr(x), Body: func(k *Term) *Term {
 		e2 := snap
+		e2.st = snap.st.clone() // facts assumed while evaluating one instance must not leak into the guards of later (nested) ones
 		e2.skolems = nil
 		t := bodyAt(&e2, k)
 		if kind == "exists" {
